@@ -700,7 +700,7 @@ impl Callbacks for Cb {
                             }
                         }
                     }
-                    if matches!(ty.kind(), ty::Adt(..) | ty::Tuple(..)) && tcx.generics_of(did).count() == 0 {
+                    if matches!(ty.kind(), ty::Adt(..) | ty::Tuple(..) | ty::Array(..)) && tcx.generics_of(did).count() == 0 {
                         if let Ok(cv) = tcx.const_eval_poly(did) {
                             let c = mir::Const::Val(cv, ty);
                             o.push(("repr", J::Str(with_no_trimmed_paths!(format!("{}", c)))));
